@@ -258,6 +258,10 @@ CATALOGUE = [
     ("palindromes with centre", "S", ["S -> a S a", "S -> b S b", "S -> c"], "lr1"),
     ("statement list", "P", ["P -> S P", "P ->", "S -> i ;", "S -> { P }", "S -> i = i ;"], "lr1"),
     ("declarations with lookahead", "D", ["D -> T V ;", "T -> i", "T -> i *", "V -> i", "V -> i [ ]"], "lr1"),
+    ("first through a nullable lead, completed late", "S", ["S -> Z X", "X -> N Y", "N -> n", "N ->", "Y -> Z", "Z -> z"], "lr1"),
+    ("first through two nullable leads", "S", ["S -> Z X", "X -> N M Y", "N -> n", "N ->", "M -> m", "M ->", "Y -> W", "W -> Z", "Z -> z"], "lr1"),
+    ("nullable tail decides the lookahead", "S", ["S -> x X c", "S -> y X d", "X -> A B", "A -> a", "B -> b", "B ->"], "lr1"),
+    ("optional suffix chain", "S", ["S -> a T", "T -> U V", "U -> u", "U ->", "V -> W", "W -> w", "W ->"], "lr1"),
     ("ambiguous expression", "E", ["E -> E + E", "E -> n"], "conflict"),
     ("dangling else", "S", ["S -> i S", "S -> i S e S", "S -> x"], "conflict"),
     ("ambiguous epsilon", "S", ["S -> A A", "A -> a", "A ->"], "conflict"),
@@ -277,6 +281,24 @@ def random_grammar(rng):
         prods.append("%s -> %s" % (lhs, " ".join(rhs)))
     if not any(p.startswith("S ->") for p in prods):
         prods.append("S -> " + rng.choice(ts))
+    return sorted(set(prods))
+
+
+def layered_grammar(rng):
+    """Second random family: five or six nonterminals in layers (a right-hand side mostly uses later
+    nonterminals), many nullable and unit productions -- FIRST sets and lookaheads that need several
+    rounds of the fixed point, few conflicts."""
+    nts = ["S", "A", "B", "C", "D", "E"][: rng.randint(5, 6)]
+    ts = ["a", "b", "c", "d"][: rng.randint(2, 4)]
+    prods = []
+    for i, lhs in enumerate(nts):
+        later = nts[i + 1:] or ts
+        for _ in range(rng.randint(1, 2)):
+            n = rng.randint(1, 3)
+            rhs = [rng.choice(later) if rng.random() < 0.65 else rng.choice(ts) for _ in range(n)]
+            prods.append("%s -> %s" % (lhs, " ".join(rhs)))
+        if i > 0 and rng.random() < 0.4:
+            prods.append("%s ->" % lhs)
     return sorted(set(prods))
 
 
@@ -512,6 +534,8 @@ def main(tier):
     for k in range(80 if tier == "quick" else 400):
         g = random_grammar(rng)
         jobs.append(("random-%d" % k, "S", g, "any", 4 if tier == "quick" else 6))
+    for k in range(60 if tier == "quick" else 300):
+        jobs.append(("random-layered-%d" % k, "S", layered_grammar(rng), "any", 4 if tier == "quick" else 6))
     # the two Emboss grammars (real production list)
     emb = sorted(module_ir.PRODUCTIONS)
     emb_terms = Oracle(module_ir.EXPRESSION_START_SYMBOL, emb).terminals
@@ -560,7 +584,8 @@ def main(tier):
         "obligations": tot["obligations"], "discharged": tot["discharged"], "accepting_paths": tot["accepted"], "error_paths": tot["errors"],
         "bounds": {"token strings": "every string of length <= n per grammar (n = %d catalogue, %d random, %d Emboss expression grammar)" % (
             n_cat, 4 if tier == "quick" else 6, 4 if tier == "quick" else 5),
-                   "grammars": "%d catalogue + %d seeded random small CFGs + Emboss grammar(s)" % (len(CATALOGUE), 80 if tier == "quick" else 400),
+                   "grammars": "%d catalogue + %d seeded random small CFGs + %d seeded layered CFGs (5-6 nonterminals, nullable/unit chains) + Emboss grammar(s)" % (
+                       len(CATALOGUE), 80 if tier == "quick" else 400, 60 if tier == "quick" else 300),
                    "outside": "longer strings; grammars outside the catalogue/random family (the shipped Emboss tables are C09)"},
         "explanation": "states = grammars; transitions = explored parser paths (viable prefixes and their first dead token)",
     })
